@@ -8,6 +8,7 @@ mkdir -p $V/.bin $V/.gen $V/evidence $V/replays
 cd $V
 go build -o .bin/rewrite ./engine/rewrite || exit 2
 for d in checks/*/; do
+  [ -f $d/main.go ] || continue
   id=$(basename $d)
   GEN=$V/.gen/$id; mkdir -p $GEN
   PKGS=$(cat $d/rewrite.pkgs 2>/dev/null | tr '\n' ',')
